@@ -1,8 +1,9 @@
 (* eng_policy.ml — line driver for the E-POLICY models.
+   engine exe: modelrun_policy
    case:   <policy> (a K C | m K C | r K | e N | c)*
    output: one token group per call, joined by " ; " *)
-open Model
-open Conv
+open Model_policy
+open Conv_policy
 
 let policy_of = function
   | "lru" -> lruP
@@ -35,3 +36,5 @@ let run (toks : string list) : string =
       let (_, outs) = prun p p.pinit (parse_calls rest) in
       String.concat " ; " (List.map show_out outs)
   | [] -> failwith "empty policy case"
+
+let () = main run
